@@ -85,6 +85,12 @@ def render_source(sc):
         return render_def(sc, extra_first="q") + "\ncallable_ = functools.partial(f, 7)\n"
     if shape == "async":
         return render_def(sc, is_async=True) + "\ncallable_ = f\n"
+    if shape == "wraps":      # an ordinary decorator: the declared parameters are those of the wrapped function
+        return (render_def(sc) + "\n@functools.wraps(f)\ndef w(*a, **k):\n    return f(*a, **k)\ncallable_ = w\n")
+    if shape == "callobj":    # an object with __call__
+        return "class C:\n" + render_def(sc, fname="__call__", extra_first="self", indent="    ") + "\ncallable_ = C()\n"
+    if shape == "lambda":     # (only for signatures a lambda can spell: same parameter list)
+        return render_def(sc).replace("def f(", "f = lambda ", 1).replace("):\n    return ", ": ", 1) + "\ncallable_ = f\n"
     return render_def(sc) + "\ncallable_ = f\n"
 
 
@@ -290,7 +296,8 @@ def random_case(rng):
     kw = [[x, 200 + x] for x in names if rng.random() < 0.4]
     rng.shuffle(kw)
     args = [100 + i for i in range(rng.randint(0, len(sig) + 2))]
-    return {"sig": sig, "args": args, "kw": kw, "shape": rng.choice(["func", "method", "partial", "async"])}
+    return {"sig": sig, "args": args, "kw": kw,
+            "shape": rng.choice(["func", "method", "partial", "async", "wraps", "lambda"])}
 
 
 def varnames(sig):
@@ -359,7 +366,7 @@ def generate(rng, tier):
     k = 0
     for sig in sigs:
         for args, kw in call_shapes(sig, min(len(sig) + 1, 4), [20]):
-            scs.append({"sig": sig, "args": args, "kw": kw, "shape": ["func", "method", "partial", "async"][k % 4]})
+            scs.append({"sig": sig, "args": args, "kw": kw, "shape": ["func", "method", "partial", "async", "wraps", "lambda"][k % 6]})
             k += 1
     parts.append((f"n<={maxlen}: every signature `def` accepts with up to {maxlen} parameters ({len(sigs)} signatures) x "
                   f"0..len+1 positional values x every subset of (named parameters + one undeclared name) as "
